@@ -24,7 +24,8 @@ STATE_MEASURE = "distinct (pos mod c, n relative to c, crosses end?, cache occup
 PROBES = ["read_ends_on_chunk_boundary", "read_spans_3_chunks", "read_reaches_end", "read_crosses_end", "read_all",
           "evicted_chunk_rerequested", "retry_took_2plus_attempts", "outage_longer_than_budget", "keep_chunks_1",
           "server_strict", "server_s3like", "dataset_level", "s3file", "seek_end", "empty_resource",
-          "reopened_with_other_chunk_size", "resource_replaced_then_reopened", "server_without_etag"]
+          "reopened_with_other_chunk_size", "resource_replaced_then_reopened", "server_without_etag",
+          "second_resource_on_same_host_open"]
 COMPONENTS = {
     "real": ["dclab.http_utils.HTTPFile / ResoluteRequestsSession (retry loop)", "dclab fmt_s3.S3File._parse_header/download_range",
              "dclab RTDC_HTTP + h5py reading through the file object", "requests Session/Response machinery above the transport adapter"],
@@ -116,6 +117,9 @@ class ByteWorld:
             if r.random() < 0.35:
                 op["replace"] = {"size": r.choice([L, L, max(0, L - 1), L + 1, 2 * L + 3]), "bseed": r.randrange(1 << 30)}
             return op
+        if self.t["klass"] == "bytes" and r.random() < 0.03:
+            # another resource on the same host is opened (and stays open) while this one is in use
+            return {"k": "other", "size": r.choice([1, c, 3 * c + 1, 40]), "bseed": r.randrange(1 << 30), "chunk": r.choice([1, 4, 16, c])}
         x = r.random()
         if x < 0.38:
             whence = r.choice([0, 0, 1, 2])
@@ -157,6 +161,23 @@ class ByteWorld:
         net.slow_rate = knobs["slow_rate"] if self.t["klass"] != "s3bytes" else 0.0
         net.stall_rate = knobs.get("stall_rate", 0.0) if self.t["klass"] != "s3bytes" else 0.0
         net.fault_burst = 0
+        if k == "other":
+            import dclab.http_utils as hu
+            rs = seeds.np_rng(op["bseed"], "blob")
+            blob2 = rs.integers(0, 256, size=op["size"], dtype=np.uint8).tobytes()
+            self.n_other = getattr(self, "n_other", 0) + 1
+            path2 = f"/data/other{self.n_other}.bin"
+            self.host.objects[path2] = blob2
+            with ctx.sut("C19.other.open"):
+                f2 = hu.HTTPFile(f"http://obj-1.sim.test{path2}", chunk_size=op["chunk"], keep_chunks=2)
+                got2 = f2.read(min(5, len(blob2)))
+            ctx.checked()
+            if bytes(got2) != blob2[:min(5, len(blob2))]:
+                ctx.violation("C19.read.bytes", "first bytes of a second resource on the same host differ from what the server holds", sig={"what": "other"})
+            self.others = getattr(self, "others", []) + [f2]
+            ctx.probe("second_resource_on_same_host_open")
+            ctx.log("c", f"other {path2} {len(blob2)}")
+            return
         if k == "reopen":
             import dclab.http_utils as hu
             if op.get("replace"):
